@@ -18,6 +18,30 @@ def parseEvent (j : Json) : Except String Event := do
   | "deliverR" => return .deliverR
   | _ => throw s!"unknown event {e}"
 
+def eventJson : Event → Json
+  | .request w sid => Json.mkObj [("e", "request"), ("w", toJson w), ("sid", toJson sid)]
+  | .ship w => Json.mkObj [("e", "ship"), ("w", toJson w)]
+  | .deliverU w => Json.mkObj [("e", "deliverU"), ("w", toJson w)]
+  | .postprocess => Json.mkObj [("e", "postprocess")]
+  | .handover => Json.mkObj [("e", "handover")]
+  | .deliverR => Json.mkObj [("e", "deliverR")]
+
+def parseInfo (j : Json) : Except String (Sid × Info) := do
+  let deps ← (← getArr j "deps").mapM fun d => do
+    match d with
+    | .arr #[.str a, .str b] => pure (a, b)
+    | _ => throw "dep: [operation, operation-type] expected"
+  return (← getNat j "sid", ⟨← getNat j "client", ← j.getObjValAs? String "task", ← j.getObjValAs? String "op",
+    ← j.getObjValAs? String "opType", ← j.getObjValAs? Bool "normal", deps⟩)
+
+def metricName : Metric → String
+  | .latency => "latency"
+  | .serviceTime => "service_time"
+  | .processingTime => "processing_time"
+
+def recordJson (r : Record) : Json :=
+  arr [Json.str (metricName r.name), toJson r.client, Json.str r.task, Json.str r.op, Json.str r.opType, toJson r.normal]
+
 /-- observable effect of one event: the ids that moved -/
 def effect (s s' : State) (ev : Event) : Json :=
   match ev with
@@ -56,7 +80,16 @@ def handle (op : String) (a : Json) : Except String Json := do
         | .error _ => pure ()
         s := s'
         n := n + 1
-    return ok (Json.mkObj [("events", toJson n), ("rstore", natArr s.rstore), ("accepted", natArr s.accepted), ("dropped", natArr s.dropped),
+    -- the records behind race control's store, when the caller says what each sample is
+    let recs ← match a.getObjVal? "infos" with
+      | .ok (.arr infos) => do
+        let tbl ← infos.toList.mapM parseInfo
+        let missing := s.rstore.filter fun a => !(tbl.any fun p => p.1 == a)
+        if !missing.isEmpty then throw s!"no info for samples {missing}"
+        let info : Sid → Info := fun a => ((tbl.find? fun p => p.1 == a).map (·.2)).getD ⟨0, "", "", "", true, []⟩
+        pure (arr ((records info s.rstore).map recordJson))
+      | _ => pure Json.null
+    return ok (Json.mkObj [("events", toJson n), ("records", recs), ("flush", arr ((flush s).map eventJson)), ("rstore", natArr s.rstore), ("accepted", natArr s.accepted), ("dropped", natArr s.dropped),
       ("downsampled", natArr s.downsampled), ("fed", natArr s.fed),
       ("in_flight", toJson (s.samplers.length + (s.w2d.flatMap (·.2)).length + s.raw.length + s.dstore.length + s.d2r.flatten.length))]) tags.eraseDups
   | _ => throw s!"unknown op {op}"
